@@ -34,7 +34,7 @@ CLAIMED = {
         text="Bounded symbolic verification: IterativeAggregation._iteragg (via sum/mean/full) executed symbolically as a generator "
              "over index contracts; axis labels, n, begin and end are solver variables (on- and off-axis labels, every lookup method); "
              "the solver decides that exactly the complete trailing windows are yielded newest-first with matching attrs/stamp, and "
-             "that unlocatable labels raise ValueError. Axis length 1..5/8.",
+             "that unlocatable labels raise ValueError. Axis length 1..5/12.",
         note="pandas get_indexer / xarray slicing-reduce-expand_dims replaced by contracts (get_indexer validated against pandas each "
              "run); reduction numerics are numpy's. Trusted: pysym, z3, contracts.",
         technique="symbolic execution of the accessor generator + z3 LIA over contract stubs", ref="5 C19"),
